@@ -658,6 +658,8 @@ struct Ex<'a> {
     r: Regs,
     mem: &'a [u8],
     memw: Vec<(u32, u8)>,
+    /// overlay index (address -> latest value) once many writes accumulate (REP loops)
+    ov: HashMap<u32, u8>,
     /// when true, the second byte of a word at offset 0xFFFF is taken from seg:0000 (segment wrap)
     segwrap: bool,
     hit_segwrap: bool,
@@ -666,6 +668,12 @@ struct Ex<'a> {
 impl<'a> Ex<'a> {
     fn rd8(&self, a: u32) -> u8 {
         let a = a % MB;
+        if self.memw.len() > 24 {
+            if let Some(v) = self.ov.get(&a) {
+                return *v;
+            }
+            return self.mem[a as usize];
+        }
         for (x, v) in self.memw.iter().rev() {
             if *x == a {
                 return *v;
@@ -675,6 +683,13 @@ impl<'a> Ex<'a> {
     }
     fn wr8(&mut self, a: u32, v: u8) {
         self.memw.push((a % MB, v));
+        if self.memw.len() == 25 {
+            for (x, y) in &self.memw {
+                self.ov.insert(*x, *y);
+            }
+        } else if self.memw.len() > 25 {
+            self.ov.insert(a % MB, v);
+        }
     }
     fn hi_addr(&mut self, seg: u16, off: u16) -> u32 {
         if off == 0xFFFF {
@@ -768,7 +783,7 @@ pub fn exec(pre: &Regs, mem: &[u8], cx: &Ctx, ins: &Ins) -> Vec<Outcome> {
 }
 
 fn exec_variant(pre: &Regs, mem: &[u8], cx: &Ctx, ins: &Ins, segwrap: bool, outs: &mut Vec<Outcome>, hit: &mut bool) {
-    let mut e = Ex { r: *pre, mem, memw: Vec::new(), segwrap, hit_segwrap: false };
+    let mut e = Ex { r: *pre, mem, memw: Vec::new(), ov: HashMap::new(), segwrap, hit_segwrap: false };
     let mut flow = Flow::Next;
     let mut care: u16 = 0xFFFF;
     // alternatives produced by this instruction: (regs, memw, flow, care, tag)
@@ -955,7 +970,7 @@ fn exec_variant(pre: &Regs, mem: &[u8], cx: &Ctx, ins: &Ins, segwrap: bool, outs
             let v = e.get(l, cx);
             if matches!(l, Loc::R16(R16::SP)) {
                 // 8086 pushes the decremented SP, 80286+ the old value: both accepted
-                let mut e2 = Ex { r: e.r, mem, memw: e.memw.clone(), segwrap, hit_segwrap: false };
+                let mut e2 = Ex { r: e.r, mem, memw: e.memw.clone(), ov: e.ov.clone(), segwrap, hit_segwrap: false };
                 let nv = v.wrapping_sub(2);
                 e2.push16(nv);
                 alts.push((e2.r, e2.memw, Flow::Next, care, "push-sp-decremented-value"));
